@@ -553,7 +553,7 @@ fn gen_errors(w: &mut impl Write, stats: &mut Stats, rng: &mut Rng, tier: &str, 
     writeln!(w, "F {fhex}").unwrap();
     // exhaustive over all patterns up to `full` bits at every position
     let full: u32 = if thorough {
-        if n <= 13 { 16 } else if n <= 64 { 9 } else if n <= 320 { 4 } else { 2 }
+        if n <= 13 { 16 } else if n <= 64 { 8 } else if n <= 320 { 4 } else { 2 }
     } else if n <= 14 {
         9
     } else if n <= 48 {
@@ -570,7 +570,7 @@ fn gen_errors(w: &mut impl Write, stats: &mut Stats, rng: &mut Rng, tier: &str, 
         }
     }
     // seeded sample of the longer patterns (first bit set, up to 16 bits)
-    let per_pos = if thorough { 100 } else { 12 };
+    let per_pos = if thorough { 60 } else { 12 };
     if n <= 48 {
         for pos in 32..nbits {
             for _ in 0..per_pos {
